@@ -82,6 +82,9 @@ def _expand_test(e, pol, fi, env, ps, state, data_eq=None):
     if isinstance(e, ast.UnaryOp) and isinstance(e.op, ast.Not):
         _expand_test(e.operand, not pol, fi, env, ps, state, data_eq)
         return
+    if isinstance(e, ast.Call) and isinstance(e.func, ast.Name) and e.func.id == "bool" and len(e.args) == 1 and not e.keywords:
+        _expand_test(e.args[0], pol, fi, env, ps, state, data_eq)
+        return
     if data_eq is not None:
         t = data_eq(e)
         if t is not None:
